@@ -651,7 +651,14 @@ impl std::ops::Add<Interval> for Interval {
     type Output = Self;
     #[inline]
     fn add(self, rhs: Self) -> Self {
-        Interval::new(self.lower + rhs.lower, self.upper + rhs.upper)
+        let lower = self.lower + rhs.lower;
+        let upper = self.upper + rhs.upper;
+        if lower.is_nan() || upper.is_nan() {
+            // e.g. -inf + inf in one bound only
+            f32::NAN.into()
+        } else {
+            Interval::new(lower, upper)
+        }
     }
 }
 
@@ -687,10 +694,18 @@ impl std::ops::Mul<f32> for Interval {
     fn mul(self, rhs: f32) -> Self {
         if self.has_nan() || rhs.is_nan() {
             f32::NAN.into()
-        } else if rhs < 0.0 {
-            Interval::new(self.upper * rhs, self.lower * rhs)
         } else {
-            Interval::new(self.lower * rhs, self.upper * rhs)
+            let (lower, upper) = if rhs < 0.0 {
+                (self.upper * rhs, self.lower * rhs)
+            } else {
+                (self.lower * rhs, self.upper * rhs)
+            };
+            if lower.is_nan() || upper.is_nan() {
+                // an infinite bound times zero
+                f32::NAN.into()
+            } else {
+                Interval::new(lower, upper)
+            }
         }
     }
 }
@@ -730,7 +745,14 @@ impl std::ops::Sub<Interval> for Interval {
 
     #[inline]
     fn sub(self, rhs: Self) -> Self {
-        Interval::new(self.lower - rhs.upper, self.upper - rhs.lower)
+        let lower = self.lower - rhs.upper;
+        let upper = self.upper - rhs.lower;
+        if lower.is_nan() || upper.is_nan() {
+            // e.g. inf - inf in one bound only
+            f32::NAN.into()
+        } else {
+            Interval::new(lower, upper)
+        }
     }
 }
 
